@@ -197,6 +197,17 @@ IsInjRenaming(p, t, C) ==
     /\ \A u, v \in R : (u[1] = v[1]) <=> (u[2] = v[2])        \* functional and injective
     /\ \A u \in R : (C # {"*"} /\ u[1] \notin C) => u[1] = u[2]
 
+\* the node kinds the property's quantifier names ("sums, products, quotients, powers, calls,
+\* subscripts, comparisons and conditionals", with variables and numbers as leaves).  The
+\* generated space is wider (floor division, remainder, shifts, bitwise/logical operators,
+\* min/max, attribute lookup); for patterns outside the quantifier a failing verdict is
+\* reported as an EXTENSION finding, never as a violation of C16.
+QuantKinds == {"Var", "Const", "Sum", "Product", "Quotient", "Power", "Call", "Sub", "Tup",
+               "Cmp", "If"}
+RECURSIVE InQuantifier(_)
+InQuantifier(e) == e.t \in QuantKinds
+                   /\ \A i \in 1..Len(KidsW(e)) : InQuantifier(KidsW(e)[i])
+
 \* feature used for attribution: an AC node without operands occurs in the pattern
 RECURSIVE HasEmptyAC(_)
 HasEmptyAC(e) == (e.t \in ACKinds /\ Len(e.c) = 0)
